@@ -71,12 +71,14 @@ class LxmlEventHandler(XmlHandler):
                     element.nsmap,
                 )
             elif event == EventType.END:
+                # The tail of the outermost element is not part of it
+                tail = element.tail if len(self.queue) > 1 else None
                 self.parser.end(
                     self.queue,
                     self.objects,
                     element.tag,
                     element.text,
-                    element.tail,
+                    tail,
                 )
                 element.clear()
             elif event == EventType.START_NS:
